@@ -38,7 +38,7 @@ fn expected(l: &LinkOcc, dir: &str, titles: &HashMap<String, Option<String>>, as
             _ => norm_ws(&l.text),
         }
     };
-    (l.kind.clone(), dest, text)
+    (l.kind.clone(), dest, plain_if_block(l, text))
 }
 
 fn observed(l: &LinkOcc, dir: &str) -> (String, String, String) {
@@ -51,7 +51,17 @@ fn observed(l: &LinkOcc, dir: &str) -> (String, String, String) {
         format!("url:{}", md::strip_md(&l.dest))
     };
     let text = if l.kind == "wiki" { String::new() } else { norm_ws(&l.text) };
-    (l.kind.clone(), dest, text)
+    (l.kind.clone(), dest, plain_if_block(l, text))
+}
+
+/// a block reference holds its text as a plain string by construction (inline markup in it is not kept, the words are):
+/// its text is compared without the markup marks; an inline link's text is compared with them
+fn plain_if_block(l: &LinkOcc, text: String) -> String {
+    if l.block_level {
+        norm_ws(&text.replace(md::MARKUP, ""))
+    } else {
+        text
+    }
 }
 
 pub fn check_library(lib: &[(String, String)], ext: &str, allow_known: bool) -> Option<(String, bool)> {
@@ -141,9 +151,13 @@ fn similar_names_library(r: &mut Rng) -> Vec<(String, String)> {
                     // the written text: unrelated, or what the target's title would be in another letter case (a
                     // title is refreshed unless it is *exactly* there already), as block reference and inside a paragraph
                     let would_be = format!("Title of {}", t.replace('/', " "));
-                    let written = match r.below(4) {
+                    // … or the title itself under inline markup: the text of the link is then not the title's plain text yet
+                    let written = match r.below(7) {
                         0 => would_be.to_uppercase(),
                         1 => would_be.to_lowercase(),
+                        2 => format!("*{}*", would_be),
+                        3 => would_be.replacen("Title", "**Title**", 1),
+                        4 => would_be.replacen("of", "`of`", 1),
                         _ => "old text".to_string(),
                     };
                     if r.chance(1, 3) && dir.is_empty() {
